@@ -7,7 +7,7 @@ package main
 //	            the config decoder does, and shoot at an in-process HTTP server.  The harness decorates every gun only to
 //	            count creations / Close calls; the decorator is an io.Closer / warmup.WarmedUp exactly when the gun the
 //	            factory returned is one, so the engine sees the interfaces of the real gun.  Observed in addition:
-//	            pK.gcl (the factory's guns are io.Closer), pK.icl (the gun, or the gun it wraps, is an io.Closer) and
+//	            pK.gcl / pK.gwu (the factory's guns are io.Closer / warmup.WarmedUp), pK.icl (the gun, or the gun it wraps, is an io.Closer) and
 //	            pK.srvopen: connections of this run the server still holds open after Engine.Wait returned.
 //	su:<kind>   the startup schedule: once (default: all instances at once) | step<ms> (one instance every <ms> ms) |
 //	            inf<ms> (an instance every <ms> ms without end: only running out of ammo, the end of a shared schedule,
